@@ -149,21 +149,27 @@ Section Cancel.
   }.
   Variable IO : ioprims.
 
-  (* p.execute(pattern); matched := p.pop().boolean() *)
+  (* err := p.execute(pattern); errNext / errNextfile (a function called from the pattern executed
+     next / nextfile) abandon the record; any other error is returned; matched := p.pop().boolean() *)
   Inductive pout : Type :=
   | POk (b : bool) (stk : list value) (m : mstate)
+  | PNext (file : bool) (stk : list value) (m : mstate)       (* continue lineLoop; file: p.scanner = nil first *)
   | PStop (r : cres).
 
   Definition eval_pattern (f : nat) (pat : code) (stk : list value) (m : mstate) (cs : cstate) : pout * cstate :=
     match run_ctx f pat 0 stk m cs with
     | (CRes (VDone (v :: stk') m'), cs') => (POk (p_to_bool P v) stk' m', cs')
     | (CRes (VDone [] _), cs') => (PStop (CRes VStuck), cs')
+    | (CRes (VAbort XNext m'), cs') => (PNext false stk m', cs')
+    | (CRes (VAbort XNextfile m'), cs') => (PNext true stk m', cs')
     | (r, cs') => (PStop r, cs')
     end.
 
-  (* the `switch len(action.Pattern)` of execActions: (matched, new inRange[i]) *)
+  (* the `switch len(action.Pattern)` of execActions: (matched, new inRange[i]); when a pattern
+     is abandoned by next / nextfile the flag keeps the value it has at that moment *)
   Inductive mout : Type :=
   | MOk (matched inr : bool) (stk : list value) (m : mstate)
+  | MNext (file : bool) (inr : bool) (stk : list value) (m : mstate)
   | MStop (r : cres).
 
   Definition match_pattern (f : nat) (pats : list code) (ir : bool) (stk : list value) (m : mstate) (cs : cstate)
@@ -172,6 +178,7 @@ Section Cancel.
     | [] => (MOk true ir stk m, cs)
     | [p0] => match eval_pattern f p0 stk m cs with
               | (POk b stk' m', cs') => (MOk b ir stk' m', cs')
+              | (PNext fl stk' m', cs') => (MNext fl ir stk' m', cs')
               | (PStop r, cs') => (MStop r, cs')
               end
     | [p0; p1] =>
@@ -179,10 +186,12 @@ Section Cancel.
           if ir then (POk true stk m, cs) else eval_pattern f p0 stk m cs in
         match start with
         | (PStop r, cs') => (MStop r, cs')
+        | (PNext fl stk' m', cs') => (MNext fl ir stk' m', cs')
         | (POk false stk' m', cs') => (MOk false false stk' m', cs')
         | (POk true stk' m', cs') =>
             match eval_pattern f p1 stk' m' cs' with
             | (POk b stk'' m'', cs'') => (MOk true (negb b) stk'' m'', cs'')
+            | (PNext fl stk'' m'', cs'') => (MNext fl true stk'' m'', cs'')
             | (PStop r, cs'') => (MStop r, cs'')
             end
         end
@@ -205,6 +214,8 @@ Section Cancel.
       | ir :: inr' =>
         match match_pattern f pats ir stk m cs with
         | (MStop r, cs1) => (LStop r, inr, cs1)
+        | (MNext fl ir' stk1 m1, cs1) =>
+            (if fl then LNextFile stk1 m1 else LNextLine stk1 m1, ir' :: inr', cs1)
         | (MOk false ir' stk1 m1, cs1) =>
             let '(o, inr'', cs2) := run_rules f rest inr' stk1 m1 cs1 in (o, ir' :: inr'', cs2)
         | (MOk true ir' stk1 m1, cs1) =>
@@ -324,8 +335,10 @@ Arguments RSentinel {value St err}.
 Arguments RStuck {value St err}.
 Arguments RFuel {value St err}.
 Arguments POk {value St err}.
+Arguments PNext {value St err}.
 Arguments PStop {value St err}.
 Arguments MOk {value St err}.
+Arguments MNext {value St err}.
 Arguments MStop {value St err}.
 Arguments LNextLine {value St err}.
 Arguments LNextFile {value St err}.
